@@ -152,7 +152,7 @@ class Const(Param):
 
 
 class Obligation:
-    def __init__(self, fn, params, tags, timeout, tiers, split, pre, findings, thorough, twin_timeout, note):
+    def __init__(self, fn, params, tags, timeout, tiers, split, pre, findings, thorough, twin_timeout, note, quick_omit_tags=()):
         self.fn = fn
         self.name = fn.__name__
         self.params = params
@@ -165,6 +165,7 @@ class Obligation:
         self.thorough = dict(thorough)
         self.twin_timeout = twin_timeout
         self.note = note
+        self.quick_omit_tags = tuple(quick_omit_tags)
 
     def for_tier(self, tier):
         """-> (params, timeout, split) effective in the tier"""
@@ -177,6 +178,11 @@ class Obligation:
             timeout = t.get('timeout', timeout)
             split = t.get('split', split)
         return params, timeout, split
+
+    def tags_for(self, tier):
+        if tier == 'quick':
+            return {k: v for k, v in self.tags.items() if k not in self.quick_omit_tags}
+        return dict(self.tags)
 
     def params_for(self, tier, label):
         if label == 'all':
@@ -205,11 +211,11 @@ class Obligation:
 
 
 def obligation(params, tags, timeout=60, tiers=('quick', 'thorough'), split=(), pre=(), findings=None,
-               thorough=None, twin_timeout=None, note=''):
+               thorough=None, twin_timeout=None, note='', quick_omit_tags=()):
     """Register the decorated function as an obligation of its module."""
     def deco(fn):
         ob = Obligation(fn, params, tags, timeout, tiers, split, pre, findings or {}, thorough or {},
-                        twin_timeout, note)
+                        twin_timeout, note, quick_omit_tags)
         import sys
         mod = sys.modules[fn.__module__]
         if not hasattr(mod, 'OBLIGATIONS'):
